@@ -98,8 +98,15 @@ func runMutant(repo, verif string, m Mutant, bl *Baseline) (bool, string) {
 		return false, "mutant does not load: " + firstLines(err.Error(), 3)
 	}
 	pr := c.encodeProperty(m.Property)
+	for _, st := range pr.stale {
+		if strings.Contains(st, "contract structure lost") {
+			// reported as a violation (<function>/proof-structure) by the check
+			return true, "contract no longer applies: " + st
+		}
+	}
 	if len(pr.stale) > 0 {
-		return true, "contract no longer applies: " + pr.stale[0]
+		// an identifier / anchor text that no longer resolves: the check prints PROOF-LOST and exits 0
+		return false, "PROOF-LOST in the real check (not a violation): " + pr.stale[0]
 	}
 	var sel []*Oblig
 	for _, o := range pr.obligs {
